@@ -58,8 +58,35 @@ def _consts(t, cache):
     return out
 
 
-def relevant_assumptions(assumptions, roots, cache):
-    """Cone of influence: assumptions sharing symbols (transitively) with the roots."""
+UBIQUITOUS_PREFIX = ("DV_0", "DP_0", "LS_0", "f:u_", "f:deq", "env_self", "p_self")
+
+
+def _strip_ubiq(cs):
+    return set(c for c in cs if not c.startswith(UBIQUITOUS_PREFIX) and c not in ("ty", "cls_of"))
+
+
+def relevant_assumptions(assumptions, roots, cache, hops=None):
+    """Cone of influence: assumptions sharing symbols (transitively, or within `hops` rounds) with the roots.
+    Dropping assumptions is always sound (the claim proved is stronger)."""
+    if hops is not None:
+        want = set()
+        for r in roots:
+            want |= _strip_ubiq(_consts(r, cache))
+        infos = [(a, _consts(a, cache)) for a in assumptions]
+        chosen = [False] * len(infos)
+        for _ in range(hops):
+            new = set()
+            for i, (a, cs) in enumerate(infos):
+                if chosen[i]:
+                    continue
+                core = _strip_ubiq(cs)
+                if (core & want) or (not core and not cs):
+                    chosen[i] = True
+                    new |= core
+            if not (new - want):
+                break
+            want |= new
+        return [a for (a, _), c in zip(infos, chosen) if c]
     want = set()
     for r in roots:
         want |= _consts(r, cache)
@@ -192,9 +219,9 @@ def decide(smt_text, workdir, name, timeout_s=20, order=("z3new", "cvc5", "z3old
     return res
 
 
-def build_query(ex, o, cache, get_values=None):
+def build_query(ex, o, cache, get_values=None, hops=None):
     roots = [o.pc, o.goal]
-    assumptions = relevant_assumptions(ex.assumptions[:o.nassume], roots, cache)
+    assumptions = relevant_assumptions(ex.assumptions[:o.nassume], roots, cache, hops)
     if o.expect == "sat":
         fs = assumptions + [o.pc, o.goal]
     else:
